@@ -80,6 +80,14 @@ BENCH_THOROUGH = BENCH_QUICK + [
 ]
 
 
+# minimal inputs of the recorded findings (witnesses of the Lean counterexample theorems
+# c14_counterexample_initial_case / c14_counterexample_loop), replayed on the real code in every run
+CORPUS = [
+    ("corpus:F140-initial-case", "while true:\n    x = x + y**2 + z\n    y = y - y**2\n    z = 1\nend\n", 1),
+    ("corpus:F141-random-walk-square",
+     "z = 0\nwhile true:\n    z = z + 1 {1/2} z - 1\n    x = x + y**2 + z**2\n    y = y - y**2\nend\n", 1),
+]
+
 # ------------------------------------------------------------------------------------------------
 # helpers
 # ------------------------------------------------------------------------------------------------
@@ -183,7 +191,7 @@ def monos_of(poly):
 
 def build_cases(tier):
     quick = tier == "quick"
-    cases = []
+    cases = [{"id": cid, "kind": "corpus", "text": text, "inv_deg": d} for cid, text, d in CORPUS]
     for f, dq, dt in SUITE:
         for d in (dq if quick else dt):
             cases.append({"id": f"suite:{f}:{d}", "kind": "suite", "path": "tests/unsolvable_benchmarks/" + f,
